@@ -278,3 +278,60 @@ val untr : cgs -> lx -> oc
 val run_lab :
   bool -> bool -> bool -> stmt -> eobj list -> nat option -> nat option ->
   oc * state
+
+type astmt =
+| ASkip
+| ALog of nat
+| AProbe
+| ARaise of what * cause
+| AReraise of nat option
+| ASeq of astmt * astmt
+| ATry of astmt * ahandlers * astmt
+| AFinally of bool * nat * astmt * astmt * astmt
+| ALoop of nat * astmt
+| AReturn
+| ABreak
+| AContinue
+| ADel of nat
+| AWithScope of nat * astmt
+| AExitExc of nat * exitk * nat option
+| AExitNone of nat * exitk
+and ahandlers =
+| AHNil
+| AHCons of nat option * nat option * nat option * astmt * ahandlers
+
+val needs_exception : nat option -> cstmt -> bool
+
+val fin_exc_vars : bool -> nat option -> nat -> nat option
+
+val annot : bool -> cstmt -> nat option -> nat -> astmt * nat
+
+val annot_h : bool -> chandlers -> nat option -> nat -> ahandlers * nat
+
+type temps = nat -> nat option
+
+val tset : temps -> nat -> nat option -> temps
+
+val no_temps : temps
+
+val reraise_a : bool -> nat option -> state -> temps -> (oc * state) * temps
+
+val exec_a : bool -> bool -> astmt -> state -> temps -> (oc * state) * temps
+
+val handle_a :
+  bool -> bool -> ahandlers -> nat -> nat option -> state -> temps ->
+  (oc * state) * temps
+
+val run_tmp :
+  bool -> bool -> bool -> stmt -> eobj list -> nat option -> nat option ->
+  oc * state
+
+type reader =
+| RBare of nat option
+| RWith of nat option
+
+val readers : astmt -> reader list
+
+val readers_h : ahandlers -> reader list
+
+val resolve : bool -> stmt -> reader list
